@@ -15,6 +15,9 @@ GENERAL = [
     ("k0*A + K0*t", lambda x, p, t: p["k0"] * x["A"] + p["K0"] * t),
     ("k0*exp(-t)*D", lambda x, p, t: p["k0"] * math.exp(-t) * x["D"]),
     ("k0 + K0*B^2", lambda x, p, t: p["k0"] + p["K0"] * x["B"] ** 2),
+    # a reversible step written as one reaction: the net rate is negative where the backward flux dominates
+    ("k0*A - K0*B", lambda x, p, t: p["k0"] * x["A"] - p["K0"] * x["B"]),
+    ("k0*(C - D)", lambda x, p, t: p["k0"] * (x["C"] - x["D"])),
 ]
 
 
@@ -127,6 +130,8 @@ def check_spec(ctx, spec, points):
         I.py_calculate_deterministic_derivative(x.copy(), dx, float(pt["t"]))
         derivs.append([float(v) for v in dx])
         rates = np.array([rate_oracle(r, pt["x"], spec["params"], pt["t"]) for r in spec["reactions"]])
+        if np.any(rates < 0):
+            ctx.count("points_with_a_negative_net_rate")
         want = (Uo + Do) @ rates
         scale = np.abs(Uo + Do) @ np.abs(rates) + 1e-300
         for i, s in enumerate(sl):
